@@ -52,6 +52,12 @@ pub fn pt() -> impl Strategy<Value = PtR> {
 #[derive(Debug, Clone, PartialEq, Eq, Hash, Serialize, Deserialize)]
 pub enum MsgR {
     HsPropose(Vec<(u64, u64)>),
+    /// Propose / QueryReply / Accept whose version data has another shape: (version, magic, shape) with shape 0 = the
+    /// usual 4-field form, 1 = the short pre-v11 form (no peer-sharing, no query field), 2 = initiator-only with peer
+    /// sharing off and query set, 3 = peer sharing 255
+    HsProposeShaped(Vec<(u64, u64, u8)>),
+    HsQueryReplyShaped(Vec<(u64, u64, u8)>),
+    HsAcceptShaped(u64, u64, u8),
     HsAccept(u64, u64),
     /// Accept whose version data says peer sharing is off (0) or carries no peer-sharing field (2)
     HsAcceptPs(u64, u64, u8),
@@ -102,6 +108,20 @@ pub fn vdata(magic: u64) -> VersionData {
     VersionData::new(magic, false, Some(1), Some(false))
 }
 
+pub fn vdata_shaped(magic: u64, shape: u8) -> VersionData {
+    match shape % 4 {
+        0 => VersionData::new(magic, false, Some(1), Some(false)),
+        1 => VersionData::new(magic, false, None, None),
+        2 => VersionData::new(magic, true, Some(0), Some(true)),
+        _ => VersionData::new(magic, false, Some(255), Some(false)),
+    }
+}
+
+fn vtable_shaped(v: &[(u64, u64, u8)]) -> proto::handshake::VersionTable<VersionData> {
+    let values: HashMap<u64, VersionData> = v.iter().map(|(n, m, sh)| (*n, vdata_shaped(*m, *sh))).collect();
+    proto::handshake::VersionTable { values }
+}
+
 fn vtable(v: &[(u64, u64)]) -> proto::handshake::VersionTable<VersionData> {
     let values: HashMap<u64, VersionData> = v.iter().map(|(n, m)| (*n, vdata(*m))).collect();
     proto::handshake::VersionTable { values }
@@ -115,7 +135,7 @@ impl MsgR {
     pub fn proto(&self) -> &'static str {
         use MsgR::*;
         match self {
-            HsPropose(_) | HsAccept(..) | HsAcceptPs(..) | HsRefuse(_) | HsQueryReply(_) => "handshake",
+            HsPropose(_) | HsProposeShaped(_) | HsQueryReplyShaped(_) | HsAcceptShaped(..) | HsAccept(..) | HsAcceptPs(..) | HsRefuse(_) | HsQueryReply(_) => "handshake",
             KaKeepAlive(_) | KaResponse(_) | KaDone => "keepalive",
             CsRequestNext | CsAwaitReply | CsRollForward(..) | CsRollBackward(..) | CsFindIntersect(_)
             | CsIntersectFound(..) | CsIntersectNotFound(_) | CsDone => "chainsync",
@@ -133,6 +153,9 @@ impl MsgR {
         let tip = |p: &PtR| cs::Tip(p.build(), 7);
         match self {
             HsPropose(v) => AnyMessage::Handshake(hs::Message::Propose(vtable(v))),
+            HsProposeShaped(v) => AnyMessage::Handshake(hs::Message::Propose(vtable_shaped(v))),
+            HsQueryReplyShaped(v) => AnyMessage::Handshake(hs::Message::QueryReply(vtable_shaped(v))),
+            HsAcceptShaped(n, m, sh) => AnyMessage::Handshake(hs::Message::Accept(*n, vdata_shaped(*m, *sh))),
             HsAccept(n, m) => AnyMessage::Handshake(hs::Message::Accept(*n, vdata(*m))),
             HsAcceptPs(n, m, ps) => AnyMessage::Handshake(hs::Message::Accept(*n, VersionData::new(*m, false, if *ps == 0 { Some(0) } else { None }, if *ps == 0 { Some(false) } else { None }))),
             HsRefuse(k) => AnyMessage::Handshake(hs::Message::Refuse(match k % 3 {
@@ -208,11 +231,18 @@ pub fn vt() -> impl Strategy<Value = Vec<(u64, u64)>> {
     prop::collection::vec((prop::sample::select(vec![11u64, 13, 14, 15, 16]), prop::sample::select(vec![764824073u64, 2])), 0..3)
 }
 
+pub fn vt_shaped() -> impl Strategy<Value = Vec<(u64, u64, u8)>> {
+    prop::collection::vec((prop::sample::select(vec![7u64, 10, 11, 13, 14, 15, 16]), prop::sample::select(vec![764824073u64, 2]), 0u8..4), 0..3)
+}
+
 /// Any message of any protocol.
 pub fn any_msg() -> impl Strategy<Value = MsgR> {
     use MsgR::*;
     prop_oneof![
         vt().prop_map(HsPropose),
+        vt_shaped().prop_map(HsProposeShaped),
+        vt_shaped().prop_map(HsQueryReplyShaped),
+        (prop::sample::select(vec![13u64, 15, 99]), prop::sample::select(vec![764824073u64, 2]), 0u8..4).prop_map(|(a, b, c)| HsAcceptShaped(a, b, c)),
         (prop::sample::select(vec![13u64, 15, 99]), prop::sample::select(vec![764824073u64, 2])).prop_map(|(a, b)| HsAccept(a, b)),
         (0u8..3).prop_map(HsRefuse),
         vt().prop_map(HsQueryReply),
